@@ -24,6 +24,8 @@ def _prepare():
     deps = core.VERIF / ".deps"
     if deps.exists():
         sys.path.append(str(deps))
+    if str(core.REPO) != "/repo":
+        sys.path.insert(0, str(core.REPO))  # scratch copy of the repository (used to try the checks against seeded changes)
     import torch
     torch.set_num_threads(1)
     import kappadata
